@@ -44,12 +44,27 @@ POS_NAMES = {'a': 'a_junk', 'c': 'c_junk', 'g': 'g_junk'}
 MODES = {
     'l': ['-l'], 'a': ['-a'], 'n': ['-n'], 'plid_good': ['--plid', '50000B01'], 'plid_junk': ['--plid', '0x500001ff'],
     'src': ['--src', 'BD8D'], 'srcx': ['--src-exclude', '@EXCL'], 'lx': ['-l', '-x'], 'ax': ['-a', '-x'], 'j': ['-j', '-o', '@OUT'],
+    'plidx': ['--plid', '0x500001ff', '-x'], 'srchx': ['--src', 'BD8D', '-x'],
 }
+# --hex only changes how a mode presents the PELs it reports: whether the junk is decodable by the mode is decided by the
+# same mode without --hex (otherwise a mode that dumps undecodable junk would vouch for itself)
+JSON_TWIN = {'lx': 'l', 'ax': 'a', 'plidx': 'plid_junk', 'srchx': 'src'}
 ALL_MODES = list(MODES)
 
 
 def junk_base():
     return pelgen.encode_pel(pelgen.pel_from_spec(pelgen.base_pel_specs()[-1]))
+
+
+_SRC_END = []
+
+
+def src_end():
+    if not _SRC_END:
+        spec = pelgen.pel_from_spec(pelgen.base_pel_specs()[-1])
+        assert spec['sections'][0]['t'] == 'PS'
+        _SRC_END.append(pelgen.section_offsets(spec)[2][1])
+    return _SRC_END[0]
 
 
 def bounds(tier):
@@ -67,13 +82,13 @@ def plan(tier, seed):
             ch.append({'k': 'corrupt', 'lo': lo, 'hi': min(n, lo + step), 'vals': 'quick', 'modes': ['a', 'l'] + (['n'] if lo < 72 else [])})
             # every other mode has its own error handling: give each the exception classes that 00 / FF corruptions raise
             ch.append({'k': 'corrupt', 'lo': lo, 'hi': min(n, lo + step), 'vals': 'zero-ff',
-                       'modes': ['plid_junk', 'plid_good', 'src', 'srcx', 'lx', 'ax', 'j']})
+                       'modes': ['plid_junk', 'plid_good', 'src', 'srcx', 'lx', 'ax', 'plidx', 'srchx', 'j']})
         else:
             for vlo in range(0, 256, 64):
                 ch.append({'k': 'corrupt', 'lo': lo, 'hi': min(n, lo + step), 'vals': [vlo, vlo + 64],
                            'modes': ['a', 'l'] + (['n'] if lo < 72 else [])})
             ch.append({'k': 'corrupt', 'lo': lo, 'hi': min(n, lo + step), 'vals': 'quick',
-                       'modes': ['plid_junk', 'src', 'srcx', 'lx', 'ax', 'j']})
+                       'modes': ['plid_junk', 'src', 'srcx', 'lx', 'ax', 'plidx', 'srchx', 'j']})
     ch.append({'k': 'struct'})
     ch.append({'k': 'unreadable'})
     for lo in range(0, 256, 64):
@@ -225,7 +240,7 @@ def parse_out(mode, text):
     """-> ('n', int) | ('l', [(eid, entry)]) | ('a', [docs]) | ('x', [blocks]) ; raises on malformed stdout"""
     if mode == 'n':
         return strictjson.loads(text)['Number of PELs found']
-    if mode in ('lx', 'ax'):
+    if mode in JSON_TWIN:
         blocks = clidrv.split_hex_blocks(text)
         if blocks is None:
             raise ValueError('stdout is not a sequence of complete Begin/End blocks')
@@ -265,6 +280,7 @@ def check(env, juncs, mode, every, case):
         env.open_fn = env.faulty_open(faults) if faults else None
         rs, fs = env.run('solo', mode, every)
         rb, fb = env.run('both', mode, every)
+        rt = env.run('solo', JSON_TWIN[mode], every)[0] if mode in JSON_TWIN else None
         env.open_fn = None
         rg, fg = env.good(mode, every)
     finally:
@@ -300,6 +316,26 @@ def check(env, juncs, mode, every, case):
         probs.append(('stdout-malformed', 'stdout is not well-formed for mode %s: %s | %r' % (mode, e, (rb.stdout or rs.stdout)[:80])))
         return probs
     empty = vs in (0, [], None)
+    if every and len(juncs) == 1 and juncs[0][1][0] == 'prefix' and mode != 'n':
+        # independent of the tool: a truncated copy of the base PEL is reported by a full-decode mode never, by a list mode
+        # (which reads up to the primary SRC) exactly when the cut lies behind the primary SRC, by a non-matching look-up never
+        n = juncs[0][1][1]
+        want_reported = mode in ('l', 'lx', 'plid_junk', 'plidx', 'src', 'srchx', 'srcx') and n >= src_end()
+        if want_reported != (not empty):
+            probs.append(('truncated-file-' + ('reported' if not empty else 'not-reported'),
+                          'a copy of the base PEL cut after %d of %d bytes (primary SRC ends at %d) is %sreported'
+                          % (n, len(junk_base()), src_end(), '' if not empty else 'not ')))
+            return probs
+    if mode in JSON_TWIN:
+        try:
+            twin_empty = parse_out(JSON_TWIN[mode], rt.stdout) in (0, [], None, {})
+        except Exception:
+            twin_empty = True
+        if twin_empty and not empty:
+            probs.append(('hex-dumps-undecodable', 'with --hex the junk alone is dumped (%d block(s)) although %s reports nothing for it'
+                          % (len(vs), ' '.join(MODES[JSON_TWIN[mode]]))))
+            return probs
+        empty = empty or twin_empty
     if mode == 'n' and len(juncs) == 1 and not empty:
         j = juncs[0][1]
         damaged = (j[0] == 'prefix' and j[1] < 72) or (j[0] == 'set' and j[1] in (0, 1, 48, 49)) or j[0] in ('empty', 'byte')
